@@ -1213,3 +1213,348 @@ Proof.
       rewrite has_dslash_cons2, N.eqb_refl in Hd. discriminate.
     + cbn [spre]. destruct (a0 =? slash); reflexivity.
 Qed.
+
+(** ---- assembling the theorem (no base) ---- *)
+Lemma expand_no_opt : forall f, existsb is_popt f = false -> expand_optionals f = [f].
+Proof.
+  induction f as [|x f IH]; [reflexivity|]. cbn [existsb]. intros H.
+  apply orb_false_iff in H. destruct H as [Hx Hf].
+  destruct x; cbn [expand_optionals]; try (rewrite (IH Hf); reflexivity). discriminate.
+Qed.
+
+Definition good (p : bytes) (L : list seg) : bool :=
+  match seqT (map seg_test L) p with TSome _ r _ => rem_ok r | _ => false end.
+
+Definition is_yes (o : outcome) : bool := match o with OYes _ _ => true | _ => false end.
+
+Lemma first_chain_existsb :
+  forall p Ls, Forall (fun L => seqT (map seg_test L) p <> TPanic) Ls ->
+    first_chain Ls p <> OPanic /\ is_yes (first_chain Ls p) = existsb (good p) Ls.
+Proof.
+  intros p. induction 1 as [|L Ls HL HLs IH]; cbn [first_chain existsb]; [split; [discriminate|reflexivity]|].
+  destruct IH as [IH1 IH2]. unfold good at 1.
+  destruct (seqT (map seg_test L) p) as [| |m r ps]; cbn [orb].
+  - split; assumption.
+  - now elim HL.
+  - destruct (rem_ok r); cbn [orb is_yes]; split; auto; discriminate.
+Qed.
+
+Lemma existsb_ext_in : forall (A : Type) (f g : A -> bool) l,
+  (forall x, In x l -> f x = g x) -> existsb f l = existsb g l.
+Proof.
+  induction l as [|x l IH]; intros H; [reflexivity|]. cbn [existsb].
+  rewrite (H x (or_introl eq_refl)), IH; [reflexivity|]. intros y Hy. apply H. now right.
+Qed.
+
+Lemma existsb_map : forall (A B : Type) (f : B -> bool) (g : A -> B) l,
+  existsb f (map g l) = existsb (fun x => f (g x)) l.
+Proof. induction l as [|x l IH]; [reflexivity|]. cbn [map existsb]. now rewrite IH. Qed.
+
+Lemma chains_leaves : forall rs L, In L (chains rs) -> Forall (fun x => is_leaf x = true) L.
+Proof.
+  intros rs L HL. apply in_flat_map in HL. destruct HL as (r & _ & HL).
+  pose proof (chain_route_leaves r) as H. rewrite Forall_forall in H. now apply H.
+Qed.
+
+Lemma existsb_false_in : forall (A : Type) (f : A -> bool) l x,
+  existsb f l = false -> In x l -> f x = false.
+Proof.
+  intros A f l x H Hx. apply existsb_false_forall in H. rewrite Forall_forall in H. now apply H.
+Qed.
+
+Theorem match_iff_flat_nobase :
+  forall rs p,
+    wf_tree rs = true -> wf_routes rs = true -> starts_with_slash p = true ->
+    known_class None rs p = false ->
+    matches None rs p = flat_any None rs p /\ match_route None rs p <> MPanic.
+Proof.
+  intros rs p Hwt Hwf Hsl Hk.
+  unfold known_class in Hk.
+  apply orb_false_iff in Hk. destruct Hk as [Hk Hds].
+  apply orb_false_iff in Hk. destruct Hk as [Hk Hopt].
+  apply orb_false_iff in Hk. destruct Hk as [Hkb Hss].
+  unfold k_boundary in Hkb. unfold k_slash_static in Hss. rewrite orb_false_r in Hss.
+  unfold k_optional in Hopt. unfold k_dslash in Hds.
+  change (fun x : pseg => match x with POpt _ => true | _ => false end) with is_popt in Hopt.
+  (* the tree has no optional segment *)
+  assert (Hplain : forallb plain_route rs = true).
+  { unfold gen_routes in Hopt. apply existsb_flat_map_false in Hopt.
+    unfold wf_tree in Hwt. clear -Hopt Hwt.
+    induction rs as [|r rs IH]; [reflexivity|]. cbn [forallb] in *.
+    apply andb_prop in Hwt. destruct Hwt as [Hr Hrs]. inversion Hopt; subst.
+    rewrite plain_from_flat, IH; auto. }
+  pose proof (siblings_chains rs Hplain 0%nat p) as Hsib.
+  (* every chain is tame and consumes the path like its pattern *)
+  assert (Hchain : forall L, In L (chains rs) ->
+            tproj (seqT (map seg_test L) p) = Some (spre (toks (flat_map gen_path L)) p)).
+  { intros L HL.
+    assert (Hin : In (flat_map gen_path L) (gen_routes rs))
+      by (rewrite gen_routes_chains; now apply in_map).
+    apply (chain_spre (cores_of None rs)).
+    - apply tame_from_flat.
+      + eapply chains_leaves; eauto.
+      + eapply existsb_false_in; eauto.
+      + unfold wf_routes in Hwf. rewrite forallb_forall in Hwf. now apply Hwf.
+      + eapply existsb_false_in; eauto.
+    - now apply cores_from_flat.
+    - split; [|exact Hkb]. destruct p; [discriminate|exact Hsl]. }
+  assert (Hnp : Forall (fun L => seqT (map seg_test L) p <> TPanic) (chains rs)).
+  { apply Forall_forall. intros L HL Hc. specialize (Hchain L HL). rewrite Hc in Hchain. discriminate. }
+  destruct (first_chain_existsb p _ Hnp) as [Hnopanic Hyes].
+  (* the table side *)
+  assert (Hflat : flat_any None rs p = existsb (good p) (chains rs)).
+  { unfold flat_any, table. rewrite gen_routes_chains, existsb_map.
+    apply existsb_ext_in. intros L HL.
+    assert (Hin : In (flat_map gen_path L) (gen_routes rs))
+      by (rewrite gen_routes_chains; now apply in_map).
+    unfold route_matches_flat.
+    rewrite (expand_no_opt _ (existsb_false_in _ _ _ _ Hopt Hin)).
+    cbn [existsb]. rewrite orb_false_r.
+    rewrite (flat_match_spre _ _ Hsl Hds).
+    specialize (Hchain L HL). unfold good.
+    destruct (seqT (map seg_test L) p) as [| |m r ps]; cbn [tproj] in Hchain.
+    - injection Hchain as <-. reflexivity.
+    - discriminate.
+    - injection Hchain as <-. reflexivity. }
+  rewrite Hflat, <- Hyes.
+  unfold matches, match_route, strip_base.
+  destruct (match_siblings rs 0 p) as [| |ch ps rem] eqn:Em; cbn [oproj] in Hsib.
+  - now elim Hnopanic.
+  - rewrite <- Hsib. split; [reflexivity|discriminate].
+  - rewrite <- Hsib. cbn [is_yes].
+    assert (rem_ok rem = true) as -> by (eapply first_chain_rem_ok; rewrite <- Hsib; reflexivity).
+    split; [reflexivity|discriminate].
+Qed.
+
+(** the hypotheses are satisfiable by a non-trivial table and path (upstream's own test
+    table, /blog/post/42), and both sides are [true] there *)
+Example match_iff_flat_nontrivial :
+  let rs := [Route (SStatic []) (Some [Route (SStatic []) None; Route (SStatic [97;98;111;117;116]) None]);
+             Route (SStatic [47;98;108;111;103])
+                   (Some [Route (SStatic []) None;
+                          Route (STuple [SStatic [112;111;115;116]; SParam [105;100]]) None])] in
+  let p := [47;98;108;111;103;47;112;111;115;116;47;52;50] in
+  wf_tree rs = true /\ wf_routes rs = true /\ starts_with_slash p = true
+  /\ known_class None rs p = false /\ matches None rs p = true /\ flat_any None rs p = true.
+Proof. vm_compute. repeat split; reflexivity. Qed.
+
+(** ================================================================================
+    Refutations of the unrestricted statements (faithful model, vm_compute witnesses)
+    ================================================================================ *)
+(* /foox against (StaticSegment "foo", StaticSegment "x") *)
+Theorem match_iff_flat_refuted_boundary :
+  exists rs p, wf_tree rs = true /\ wf_routes rs = true /\ starts_with_slash p = true
+               /\ matches None rs p = true /\ flat_any None rs p = false.
+Proof.
+  exists [Route (STuple [SStatic [102;111;111]; SStatic [120]]) None], [47;102;111;111;120].
+  vm_compute. repeat split; reflexivity.
+Qed.
+
+(* /about against StaticSegment "/" { StaticSegment "", StaticSegment "about" } (table: //about) *)
+Theorem match_iff_flat_refuted_slash_static :
+  exists rs p, wf_tree rs = true /\ wf_routes rs = true /\ starts_with_slash p = true
+               /\ matches None rs p = true /\ flat_any None rs p = false.
+Proof.
+  exists [Route (SStatic [47]) (Some [Route (SStatic []) None;
+                                      Route (SStatic [97;98;111;117;116]) None])],
+         [47;97;98;111;117;116].
+  vm_compute. repeat split; reflexivity.
+Qed.
+
+(* /a/b against (:x?, "a", :y?): table has /a/{y}, the router does not match *)
+Theorem match_iff_flat_refuted_optional :
+  exists rs p, wf_tree rs = true /\ wf_routes rs = true /\ starts_with_slash p = true
+               /\ matches None rs p = false /\ flat_any None rs p = true.
+Proof.
+  exists [Route (STuple [SOpt [120]; SStatic [97]; SOpt [121]]) None], [47;97;47;98].
+  vm_compute. repeat split; reflexivity.
+Qed.
+
+(* // against StaticSegment "" : table entry "/" plus the tolerated trailing slash *)
+Theorem match_iff_flat_refuted_dslash :
+  exists rs p, wf_tree rs = true /\ wf_routes rs = true /\ starts_with_slash p = true
+               /\ matches None rs p = false /\ flat_any None rs p = true.
+Proof.
+  exists [Route (SStatic []) None], [47;47].
+  vm_compute. repeat split; reflexivity.
+Qed.
+
+Theorem match_iff_flat_refuted :
+  exists base rs p, wf_tree rs = true /\ wf_routes rs = true /\ starts_with_slash p = true
+                    /\ matches base rs p <> flat_any base rs p.
+Proof.
+  exists None. destruct match_iff_flat_refuted_boundary as (rs & p & H1 & H2 & H3 & H4 & H5).
+  exists rs, p. repeat split; auto. rewrite H4, H5. discriminate.
+Qed.
+
+(* /xéa against (StaticSegment "x", ParamSegment "p"): str::split_at panics *)
+Theorem match_route_total_refuted :
+  exists rs p, wf_tree rs = true /\ wf_routes rs = true /\ starts_with_slash p = true
+               /\ match_route None rs p = MPanic.
+Proof.
+  exists [Route (STuple [SStatic [120]; SParam [112]]) None], [47;120;195;169;97].
+  vm_compute. repeat split; reflexivity.
+Qed.
+
+(** ================================================================================
+    The matched parts of a nested match and the remainder partition the path —
+    unless an optional parent fell back (then its matched text is stale)
+    ================================================================================ *)
+Fixpoint no_opt_parent (r : route) : bool :=
+  match r with
+  | Route _ None => true
+  | Route s (Some ks) => negb (seg_optional s) && forallb no_opt_parent ks
+  end.
+Definition k_optional_parent (rs : list route) : bool := negb (forallb no_opt_parent rs).
+
+Definition chain_text (ch : list (nat * bytes)) : bytes := concat (map snd ch).
+
+Lemma forest_partition :
+  forall ks,
+    Forall (fun r => no_opt_parent r = true ->
+              forall id p ch ps rem, match_nested r id p = NYes ch ps rem ->
+                                     chain_text ch ++ rem = p) ks ->
+    forallb no_opt_parent ks = true ->
+    forall id p ch ps rem, first_match match_nested ks id p = NYes ch ps rem ->
+                           chain_text ch ++ rem = p.
+Proof.
+  induction 1 as [|k ks Hk Hks IH]; intros Hp id p ch ps rem H; cbn [first_match] in H.
+  - discriminate.
+  - cbn [forallb] in Hp. apply andb_prop in Hp. destruct Hp as [Hpk Hpks].
+    destruct (match_nested k id p) eqn:E; try discriminate.
+    + eapply IH; eauto.
+    + inversion H; subst. eapply Hk; eauto.
+Qed.
+
+Theorem nested_partition :
+  forall r, no_opt_parent r = true ->
+  forall id p ch ps rem, match_nested r id p = NYes ch ps rem -> chain_text ch ++ rem = p.
+Proof.
+  induction r using route_ind'; intros Hp id p ch ps rem Hm;
+    cbn [match_nested] in Hm; unfold nested_step in Hm.
+  - destruct (seg_test s p) as [| |m r1 ps1] eqn:E; try discriminate.
+    unfold nested_finish in Hm. destruct (rem_ok r1); [|discriminate].
+    inversion Hm; subst. unfold chain_text. cbn [map snd concat].
+    rewrite app_nil_r. eapply seg_test_partition; eauto.
+  - cbn [no_opt_parent] in Hp. apply andb_prop in Hp. destruct Hp as [Hs Hks].
+    apply negb_true_iff in Hs.
+    destruct (seg_test s p) as [| |m r1 ps1] eqn:E; try discriminate.
+    destruct (first_match match_nested ks (S id) r1) as [| |ch1 ips rem1] eqn:E1; try discriminate.
+    + rewrite Hs in Hm. discriminate.
+    + unfold nested_finish in Hm. destruct (rem_ok rem1); [|discriminate].
+      inversion Hm; subst. unfold chain_text. cbn [map snd concat].
+      rewrite <- app_assoc.
+      pose proof (forest_partition ks H Hks _ _ _ _ _ E1) as Hc. unfold chain_text in Hc.
+      rewrite Hc. eapply seg_test_partition; eauto.
+Qed.
+
+Theorem siblings_partition_except_known :
+  forall rs, k_optional_parent rs = false ->
+  forall id p ch ps rem, match_siblings rs id p = NYes ch ps rem -> chain_text ch ++ rem = p.
+Proof.
+  intros rs Hk. unfold k_optional_parent in Hk. apply negb_false_iff in Hk.
+  intros id p ch ps rem. unfold match_siblings. apply forest_partition; [|exact Hk].
+  apply Forall_forall. intros r _ Hr. now apply nested_partition.
+Qed.
+
+(* /b against :x? { "b" }: the parent keeps matched = "/b" after the fallback *)
+Theorem siblings_partition_refuted :
+  exists rs p ch ps rem, match_siblings rs 0 p = NYes ch ps rem /\ chain_text ch ++ rem <> p.
+Proof.
+  exists [Route (SOpt [120]) (Some [Route (SStatic [98]) None])], [47;98].
+  eexists _, _, _. split; [vm_compute; reflexivity|]. vm_compute. discriminate.
+Qed.
+
+Example siblings_partition_nontrivial :
+  match_siblings [Route (SStatic [47;98]) (Some [Route (STuple [SStatic [112]; SParam [105]]) None])]
+                 0 [47;98;47;112;47;52;47]
+  = NYes [(0%nat, [47;98]); (1%nat, [47;112;47;52])] [([105],[52])] [47].
+Proof. vm_compute. reflexivity. Qed.
+
+(** ================================================================================
+    Each parameter value is the corresponding path segment: the returned parameters are
+    exactly the bindings of the table pattern of the matched flat route
+    ================================================================================ *)
+Lemma first_chain_yes : forall Ls p ps rem,
+  first_chain Ls p = OYes ps rem ->
+  exists L m, In L Ls /\ seqT (map seg_test L) p = TSome m rem ps.
+Proof.
+  induction Ls as [|L Ls IH]; intros p ps rem H; cbn [first_chain] in H; [discriminate|].
+  destruct (seqT (map seg_test L) p) as [| |m r ps1] eqn:E; try discriminate.
+  - apply IH in H. destruct H as (L0 & m & HL & Hm). exists L0, m. split; [now right|exact Hm].
+  - destruct (rem_ok r).
+    + inversion H; subst. exists L, m. split; [now left|exact E].
+    + apply IH in H. destruct H as (L0 & m0 & HL & Hm). exists L0, m0. split; [now right|exact Hm].
+Qed.
+
+Theorem params_are_segments :
+  forall rs p ch ps,
+    wf_tree rs = true -> wf_routes rs = true -> starts_with_slash p = true ->
+    known_class None rs p = false ->
+    match_route None rs p = MYes ch ps ->
+    exists f r, In f (gen_routes rs) /\ spre (toks f) p = Some (ps, r) /\ rem_ok r = true.
+Proof.
+  intros rs p ch ps Hwt Hwf Hsl Hk Hm.
+  unfold known_class in Hk.
+  apply orb_false_iff in Hk. destruct Hk as [Hk Hds].
+  apply orb_false_iff in Hk. destruct Hk as [Hk Hopt].
+  apply orb_false_iff in Hk. destruct Hk as [Hkb Hss].
+  unfold k_boundary in Hkb. unfold k_slash_static in Hss. rewrite orb_false_r in Hss.
+  unfold k_optional in Hopt.
+  change (fun x : pseg => match x with POpt _ => true | _ => false end) with is_popt in Hopt.
+  assert (Hplain : forallb plain_route rs = true).
+  { unfold gen_routes in Hopt. apply existsb_flat_map_false in Hopt.
+    unfold wf_tree in Hwt. clear -Hopt Hwt.
+    induction rs as [|r rs IH]; [reflexivity|]. cbn [forallb] in *.
+    apply andb_prop in Hwt. destruct Hwt as [Hr Hrs]. inversion Hopt; subst.
+    rewrite plain_from_flat, IH; auto. }
+  pose proof (siblings_chains rs Hplain 0%nat p) as Hsib.
+  unfold match_route, strip_base in Hm.
+  destruct (match_siblings rs 0 p) as [| |ch1 ps1 rem] eqn:Em; try discriminate.
+  destruct (rem_ok rem) eqn:Er; [|discriminate]. inversion Hm; subst.
+  cbn [oproj] in Hsib. symmetry in Hsib. apply first_chain_yes in Hsib.
+  destruct Hsib as (L & m & HL & HS).
+  assert (Hin : In (flat_map gen_path L) (gen_routes rs))
+    by (rewrite gen_routes_chains; now apply in_map).
+  exists (flat_map gen_path L), rem. split; [exact Hin|]. split; [|exact Er].
+  assert (Hc : tproj (seqT (map seg_test L) p) = Some (spre (toks (flat_map gen_path L)) p)).
+  { apply (chain_spre (cores_of None rs)).
+    - apply tame_from_flat.
+      + eapply chains_leaves; eauto.
+      + eapply existsb_false_in; eauto.
+      + unfold wf_routes in Hwf. rewrite forallb_forall in Hwf. now apply Hwf.
+      + eapply existsb_false_in; eauto.
+    - now apply cores_from_flat.
+    - split; [|exact Hkb]. destruct p; [discriminate|exact Hsl]. }
+  rewrite HS in Hc. cbn [tproj] in Hc. now injection Hc as <-.
+Qed.
+
+(** a value bound by a [{param}] of the pattern is a non-empty run without '/' *)
+Definition is_wild_tok (t : tok) : bool := match t with TWild _ => true | _ => false end.
+
+Lemma firstn_run_no_slash : forall p, has_slash (firstn (run_len p) p) = false.
+Proof.
+  induction p as [|c p IH]; [reflexivity|]. cbn [run_len].
+  destruct (c =? slash) eqn:E; [reflexivity|].
+  cbn [firstn has_slash existsb]. rewrite E. exact IH.
+Qed.
+
+Theorem pattern_param_values :
+  forall ts p b r, existsb is_wild_tok ts = false -> spre ts p = Some (b, r) ->
+    Forall (fun kv => snd kv <> [] /\ has_slash (snd kv) = false) b.
+Proof.
+  induction ts as [|t ts IH]; intros p b r Hw H.
+  - inversion H; subst. constructor.
+  - cbn [existsb] in Hw. apply orb_false_iff in Hw. destruct Hw as [Ht Hw].
+    destruct t as [c|n|n]; cbn [spre] in H; [| |discriminate].
+    + destruct (if c =? slash then ts else []) as [|[c2|n2|n2] rest] eqn:E;
+        try (destruct p as [|c' p']; [discriminate|]; destruct (c' =? c); [|discriminate];
+             eapply IH; eauto).
+      destruct (c =? slash); [|discriminate]. subst ts. cbn in Hw. discriminate.
+    + destruct (run_len p) as [|k] eqn:Ek; [discriminate|]. rewrite <- Ek in H.
+      destruct (spre ts (skipn (run_len p) p)) as [[b0 r0]|] eqn:E0; [|discriminate].
+      inversion H; subst. constructor.
+      * cbn [snd]. split; [|apply firstn_run_no_slash].
+        rewrite Ek. destruct p; [discriminate|]. discriminate.
+      * eapply IH; eauto.
+Qed.
